@@ -270,24 +270,26 @@ def facility_script(route, origin, rng):
 
 
 def binding_script(route, origin, rng):
-    """C10: everything bound / exactly one required binding missing / one component handler missing /
-    registration after final construction."""
+    """C10: everything bound / exactly one required binding never made / one component handler missing /
+    registration after final construction.  The omitted binding is never touched (not bound and unbound again)."""
     has_mc = any(r['mc'] for r in route)
     clients = ['A', 'B'][:rng.randint(1, 2)] if has_mc else []
     cmds = [{'c': 'construct', 'bits': valid_bits(origin, rng)}]
     for cid in clients:
         cmds.append({'c': 'register', 'id': cid})
-    cmds.append({'c': 'bind', 'port': '*', 'event': '*', 'client': ''})
-    for cid in clients:
-        cmds.append({'c': 'bind', 'port': '*', 'event': '*', 'client': cid})
     user_side = [r for r in route if r['kind'] in ('provides-out', 'requires-in')]
     comp_side = [r for r in route if r['kind'] in ('provides-in', 'requires-out')]
+    keys = [(r['port'], r['event'], c) for r in user_side for c in (clients if r['mc'] else [''])]
     mode = rng.choice(['all', 'one-missing', 'one-missing', 'one-missing', 'comp-missing'])
-    if mode == 'one-missing' and user_side:
-        rte = rng.choice(user_side)
-        cmds.append({'c': 'unbind', 'port': rte['port'], 'event': rte['event'], 'client': rng.choice(clients) if rte['mc'] else ''})
+    missing = rng.choice(keys) if (mode == 'one-missing' and keys) else None
+    order = list(keys)
+    rng.shuffle(order)
+    for key in order:
+        if key != missing:
+            cmds.append({'c': 'bind', 'port': key[0], 'event': key[1], 'client': key[2]})
+    if missing is not None:
         cmds.append({'c': 'final'})
-        cmds.append({'c': 'bind', 'port': rte['port'], 'event': rte['event'], 'client': cmds[-2]['client']})
+        cmds.append({'c': 'bind', 'port': missing[0], 'event': missing[1], 'client': missing[2]})
         cmds.append({'c': 'final'})
     elif mode == 'comp-missing' and comp_side:
         rte = rng.choice(comp_side)
